@@ -44,11 +44,10 @@ Qed.
 Theorem faithful_packet : forall v p its compact fb body,
   legal_packet v p = true ->
   same_per_id (items_of p) its ->
-  (forall s, p = Unsuback s -> ~ In 143 (ua_codes s)) ->
   spec_body v p its compact = Some (fb, body) ->
   impl_decode_packet v fb body = Ok p.
 Proof.
-  intros v p its compact fb body Hleg Hs H143 Hb.
+  intros v p its compact fb body Hleg Hs Hb.
   destruct p; cbn [legal_packet] in Hleg; try discriminate Hleg; destruct v; cbn [items_of] in Hs.
   - (* CONNACK 5 *) pose proof (decode_connack5_faithful _ _ _ _ _ Hleg Hs Hb) as H.
     cbn [spec_body] in Hb. destruct (items_allowed 2 its); [|discriminate]. destruct (w_u8 _); [|discriminate].
@@ -80,7 +79,7 @@ Proof.
     destruct (print_properties its); [|discriminate]. destruct (w_codes _); [|discriminate]. inversion Hb; subst. dispatch. exact H.
   - pose proof (decode_suback311_faithful _ _ _ _ _ Hleg Hb) as H.
     cbn [spec_body] in Hb. destruct (w_u16 _); [|discriminate]. destruct (w_codes _); [|discriminate]. inversion Hb; subst. dispatch. exact H.
-  - (* UNSUBACK *) pose proof (decode_unsuback5_faithful_except_143 _ _ _ _ _ Hleg (H143 _ eq_refl) Hs Hb) as H.
+  - (* UNSUBACK *) pose proof (decode_unsuback5_faithful _ _ _ _ _ Hleg Hs Hb) as H.
     cbn [spec_body] in Hb. destruct (items_allowed 11 its); [|discriminate]. destruct (w_u16 _); [|discriminate].
     destruct (print_properties its); [|discriminate]. destruct (w_codes _); [|discriminate]. inversion Hb; subst. dispatch. exact H.
   - pose proof (decode_unsuback311_faithful _ _ _ _ _ Hleg Hb) as H.
@@ -142,17 +141,16 @@ Qed.
 (* ---- what the reference encoder emits is decoded, through the framing decoder, to exactly the packet ---- *)
 Theorem faithful_stream : forall v p order compact bs rest max_size,
   spec_encode_with v p order compact = Some bs ->
-  (forall s, p = Unsuback s -> ~ In 143 (ua_codes s)) ->
   len bs <= effective_max max_size ->
   decode_bytes v max_size decoder_init (bs ++ rest) =
   (let '(d2, ps, r) := decode_bytes v max_size decoder_init rest in (d2, p :: ps, r)).
 Proof.
-  intros v p order compact bs rest max_size He H143 Hmax.
+  intros v p order compact bs rest max_size He Hmax.
   unfold spec_encode_with in He. destruct (reorder (items_of p) order) as [its|] eqn:R; [|discriminate].
   apply reorder_sound in R. unfold spec_encode_items in He.
   destruct (legal_packet v p) eqn:Hleg; [|discriminate].
   destruct (spec_body v p its compact) as [[fb body]|] eqn:Hb; [|discriminate]. cbn [fst snd] in He.
-  pose proof (faithful_packet v p its compact fb body Hleg R H143 Hb) as Hd.
+  pose proof (faithful_packet v p its compact fb body Hleg R Hb) as Hd.
   unfold decode_bytes.
   apply (frame_decodes (impl_decode_packet v) max_size fb body bs p rest decoder_init He Hd eq_refl eq_refl).
   destruct (frame_inv _ _ _ He) as [l [Hl ->]]. rewrite len_cons, len_app in *. lia.
